@@ -4,6 +4,9 @@ pub mod c01;
 pub mod c02;
 pub mod c03;
 pub mod c04;
+pub mod c10;
+pub mod c11;
+pub mod c12;
 
 pub fn replay_value(path: &str) -> serde_json::Value {
     let s = std::fs::read_to_string(path).unwrap_or_else(|e| {
@@ -57,6 +60,9 @@ pub fn dispatch(prop: &str, tier: Tier, replay: Option<String>) -> i32 {
         "C02" => c02::run(tier, replay),
         "C03" => c03::run(tier, replay),
         "C04" => c04::run(tier, replay),
+        "C10" => c10::run(tier, replay),
+        "C11" => c11::run(tier, replay),
+        "C12" => c12::run(tier, replay),
         _ => {
             eprintln!("unknown property {prop}");
             2
